@@ -167,6 +167,7 @@ func RunRandom(seed int64, g *GenesisSpec, naccts int, p Profile, root string, e
 			do(Op{Kind: "restart"})
 		}
 	}
+	r.Close()
 	return sc, r, nil
 }
 
